@@ -89,6 +89,14 @@ theorem optimize_gaussian_checked (θ : Nat → Rat) (B : Nat) (l out : List Cmd
     (h : isOptOutput B l out = true) : sem (GaussSem.gf θ) out = sem (GaussSem.gf θ) l :=
   optimize_checked_sem (GaussSem.gf θ) (GaussSem.gf_comm θ) (GaussSem.gaussLawful θ) B l out hwf h
 
+/-- **only true identities may be cancelled**: a `Vacuum` preparation is not the identity channel (it acts
+on every input state, the register of a later program segment is not in the vacuum), so deleting a
+leading `Vacuum` changes `sem (gf θ)`; the model's optimiser keeps it (`opMerge` never returns
+`identity` for a preparation) -/
+theorem vacuum_prep_not_identity (θ : Nat → Rat) (k i : Nat) :
+    GaussSem.gf θ { id := i, cls := "Vacuum", regs := [k] } ≠ 1 :=
+  GaussSem.vacuum_ne_one θ k i
+
 /-- **tie to the K3 specification**: the channel of a single-mode block `[[a, b], [c, d]]` on mode
 `k` acts on symmetric xp data exactly as `linMap (rows1 k a b c d)` of `SFV.Model.PhaseSpace`
 (`rotRows`, `squeezeRows`, `lossRows` are such blocks; `SFV.Proofs.GaussNM` ties them to the
